@@ -139,6 +139,18 @@ pub fn hash_type(ty: &Type) -> String {
     }
 }
 
+/// The type as far as educe looks into it: kind of the outermost node, printed tokens, the type below it.
+fn ty_tree(ty: &Type) -> Value {
+    let (k, child): (&str, Option<&Type>) = match ty {
+        Type::Path(_) => ("path", None),
+        Type::Reference(r) => ("ref", Some(r.elem.as_ref())),
+        Type::Array(a) => ("array", Some(a.elem.as_ref())),
+        Type::Group(g) => ("group", Some(g.elem.as_ref())),
+        _ => ("other", None),
+    };
+    json!({"k": k, "t": ts(ty), "c": child.map(ty_tree)})
+}
+
 fn ty_shape(ty: &Type) -> Value {
     match ty {
         Type::Path(p) => json!({"k": "path", "s": ts(p)}),
@@ -185,7 +197,7 @@ fn trait_meta(m: &Meta) -> Value {
                 input.parse::<Token![,]>()?;
                 Ok((ty, input.parse_terminated(Meta::parse, Token![,])?))
             }) {
-                Ok((ty, p)) => json!({"ty": hash_type(&ty), "params": params(&p)}),
+                Ok((ty, p)) => json!({"ty": hash_type(&ty), "ty_tree": ty_tree(&ty), "params": params(&p)}),
                 Err(_) => Value::Null,
             };
         },
@@ -248,6 +260,7 @@ fn fields(f: &Fields) -> (String, Value) {
                 "is_ref": matches!(x.ty, Type::Reference(_)),
                 "deref_ty": ts(dereference(&x.ty)),
                 "tyshape": ty_shape(&x.ty),
+                "ty_tree": ty_tree(&x.ty),
                 "attrs": attrs(&x.attrs),
             })
         })
